@@ -13,6 +13,7 @@ import (
 	"path/filepath"
 	"strings"
 	"sync"
+	"sync/atomic"
 
 	"tags.cncf.io/container-device-interface/pkg/cdi"
 	"tags.cncf.io/container-device-interface/schema"
@@ -242,6 +243,51 @@ func checkC18(c *Ctx) {
 		items = append(items, c18Item{cs.Name, s, tags, descr})
 		mu.Unlock()
 	})
+	// many validations at the same time (the cache validates on refresh while callers
+	// validate on their own): what was accepted one at a time is accepted in a crowd
+	if c.replayCase == "" {
+		crowd := items
+		if len(crowd) > 300 {
+			crowd = crowd[:300]
+		}
+		docs := make([][]byte, len(crowd))
+		for i, it := range crowd {
+			docs[i] = specBytes(it.Spec, []string{"json", "yaml"}[i%2])
+		}
+		var cwg sync.WaitGroup
+		var first atomic.Pointer[string]
+		for g := 0; g < 16 && len(crowd) > 0; g++ {
+			cwg.Add(1)
+			go func(g int) {
+				defer cwg.Done()
+				rr := rand.New(rand.NewSource(c.Seed*100 + int64(g)))
+				for k := 0; k < 2*len(crowd) && first.Load() == nil; k++ {
+					i := rr.Intn(len(crowd))
+					var e error
+					var how string
+					if pv, _ := guard(func() {
+						if k%2 == 0 {
+							how, e = "Validate", builtin.Validate(crowd[i].Spec)
+						} else {
+							how, e = "ValidateData", builtin.ValidateData(docs[i])
+						}
+					}); pv != nil {
+						e = fmt.Errorf("panic: %v", pv)
+					}
+					c.Count("concurrent_validations", 1)
+					if e != nil {
+						msg := fmt.Sprintf("%s of the Spec of case %s (%s), accepted when validated alone, fails while 16 goroutines validate at the same time: %v", how, crowd[i].Case, crowd[i].Descr, e)
+						first.CompareAndSwap(nil, &msg)
+					}
+				}
+			}(g)
+		}
+		cwg.Wait()
+		if m := first.Load(); m != nil {
+			c.violation("crowd", "concurrent-rejected", nil, *m, nil)
+		}
+		c.Floor("concurrent_validations", 1000)
+	}
 	// the validator installed as the Spec validator: dedicated children
 	exe, err := os.Executable()
 	must(err)
